@@ -568,10 +568,21 @@ func unpackEngine(c *Ctx) {
 			}
 		}
 		// (2) filters: post id == reference of the filtered fileset; reject iff offending entry (C12)
-		for fi := 0; fi < 3; fi++ {
+		for fi := 0; fi < 5; fi++ {
 			fstr := unpackFilterStrings[c.Intn(len(unpackFilterStrings))]
-			// entry orders matter here too: a directory entry that follows its children replaces a conjured record
-			hdrs, eff := c.filesetToHdrs(fsx, hdrOpts{dirsAfterKids: fi > 0, dotSlash: fi == 2})
+			// entry orders matter here too: a directory entry that follows its children replaces a conjured record;
+			// and so do archives without directory entries: every parent is conjured, whatever the filter does to the child
+			ho := hdrOpts{dirsAfterKids: fi == 1 || fi == 2, dotSlash: fi == 2}
+			if fi == 3 {
+				ho = hdrOpts{dropDirs: 1}
+			}
+			if fi == 4 {
+				ho = hdrOpts{dropDirs: 0.5, dotSlash: true}
+				if !strings.Contains(fstr, "dev=ignore") { // the ejecting rule, on archives without directory entries
+					fstr = fstr[:strings.Index(fstr, "dev=")] + "dev=ignore"
+				}
+			}
+			hdrs, eff := c.filesetToHdrs(fsx, ho)
 			op := fmt.Sprintf("unpack tar %s pax none %s", fstr, hdrsTok(hdrs))
 			r := unpackExec(c, op)
 			parts := strings.SplitN(r, "\x00", 2)
@@ -606,6 +617,7 @@ func unpackEngine(c *Ctx) {
 				}
 			default:
 				c.PropFail("valid-archive-refused", "filtered unpack of a well-formed archive failed: "+parts[1], op)
+				c.PropFail("filter-refused-valid", "unpack of a well-formed archive under a filter none of whose reject rules names an entry failed: "+parts[1], op)
 			}
 			c.H("filtered")
 		}
